@@ -249,9 +249,12 @@ func (ex *Exec) libCall(st *State, fn *ssa.Function, args []Val, pos string) []O
 				sorts = append(sorts, "Ref")
 				continue
 			}
-			outside("call to %s with %T argument has no trusted contract (at %s)", name, a, pos)
+			// a library call on library or local objects: abstracted (arbitrary results, the
+			// local objects passed by address get arbitrary contents; refused for pointers
+			// into the modelled heap)
+			return ex.abstractCall(st, fn, name, args, pos)
 		default:
-			outside("call to %s with %T argument has no trusted contract (at %s)", name, a, pos)
+			return ex.abstractCall(st, fn, name, args, pos)
 		}
 	}
 	res := fn.Signature.Results()
